@@ -108,6 +108,15 @@ func c07Programs(tier string) []string {
 		add("func(n){for n = 2 {n}}(" + r + ")")
 		add("func(n){func(m){func(n){n+m}(m)}(n)}(" + r + ")")
 	}
+	// containers with keys / values / elements of every kind as arguments of a user function (the call goes through the memoization cache)
+	for _, r := range kindExprs {
+		for _, shape := range []string{"{%:1}", "{1:%}", "[%]", "[{%:1}]", "{1:{%:2}}", "{%:1, 2:%}", "[[%], {1:[%]}]"} {
+			arg := strings.ReplaceAll(shape, "%", r)
+			add("func f(u){len(u)}; f(" + arg + ")")
+			add("(u => len(u))(" + arg + "); (u => len(u))(" + arg + ")")
+			add("func f(u,v,w){len(u)}; f(1, " + arg + ", " + arg + ")")
+		}
+	}
 	ps = append(ps,
 		"v=[1,2]; v[1]=macro(x){x}", "v={}; v.k=macro(){1}", "func f(u){u}; f(macro(x){x})", "[macro(x){x}]", "macro(x){x}(1)", "m=macro(){}; m()", "m=macro(u){}; m(a)", "macro(x){x}",
 		"m=macro(u){quote(unquote(u))}; m=1; m", "m=macro(u){quote(unquote(v))}; m(a)", "m=macro(u){quote(unquote(u, u))}; m(a)", "m=macro(u){quote()}; m(a)", "m=macro(u){quote(1, 2)}; m(a)",
